@@ -160,14 +160,32 @@ Proof.
   now rewrite !parse_dec_dec_Z.
 Qed.
 
-Lemma range_value_render n : range_value_ok (Some (range_string 0 n)) = true.
+Lemma wrap64_small z : -9223372036854775808 <= z <= 9223372036854775807 -> wrap64 z = z.
+Proof. intros H. unfold wrap64. rewrite Z.mod_small; lia. Qed.
+
+(* the text RangeString renders, read back *)
+Lemma range_string_read n :
+  let e := if wrap64 (n - 1) <? 0 then 0 else wrap64 (n - 1) in
+  cut_byte 45 (range_string 0 n) = Some ([48%N], dec_Z e) /\ 0 <= e.
 Proof.
-  unfold range_value_ok, range_string. change (dec_Z 0) with [48%N].
-  change (cut_byte 45 ([48%N] ++ 45%N :: ?x)) with (Some ([48%N], x)).
-  set (e := if wrap64 (n - 1) <? 0 then 0 else wrap64 (n - 1)).
-  assert (He : 0 <= e) by (unfold e; destruct (Z.ltb_spec (wrap64 (n - 1)) 0); lia).
-  cbn [cut_byte N.eqb app]. change (parse_dec [48%N]) with (Some 0). rewrite parse_dec_dec_Z.
-  now apply Z.leb_le.
+  cbv zeta. unfold range_string. change (dec_Z 0) with [48%N]. split; [reflexivity|].
+  destruct (Z.ltb_spec (wrap64 (n - 1)) 0); lia.
+Qed.
+
+Lemma range_value_render_any n : range_value_ok None (Some (range_string 0 n)) = true.
+Proof.
+  unfold range_value_ok. destruct (range_string_read n) as [-> He].
+  change (parse_dec [48%N]) with (Some 0). rewrite parse_dec_dec_Z, andb_true_r. now apply Z.leb_le.
+Qed.
+
+Lemma range_value_render n : range_value_ok (range_end_for n) (Some (range_string 0 n)) = true.
+Proof.
+  unfold range_end_for. destruct ((0 <=? n) && (n <=? int64_max)) eqn:C; [|apply range_value_render_any].
+  apply andb_true_iff in C as [C1 C2]. apply Z.leb_le in C1, C2. unfold int64_max in C2.
+  unfold range_value_ok. destruct (range_string_read n) as [-> He].
+  change (parse_dec [48%N]) with (Some 0). rewrite parse_dec_dec_Z.
+  rewrite (proj2 (Z.leb_le _ _) He). cbn [andb]. apply Z.eqb_eq.
+  rewrite wrap64_small by lia. destruct (Z.ltb_spec (n - 1) 0); lia.
 Qed.
 
 (* ================================================================ the handlers *)
@@ -199,6 +217,8 @@ Section Conf.
   Local Arguments make_next_link : simpl never.
   Local Arguments content_range_of : simpl never.
   Local Arguments range_value_ok : simpl never.
+  Local Arguments range_end_for : simpl never.
+  Local Arguments b64u_encode : simpl never.
   Local Arguments upload_path : simpl never.
   Local Arguments text : simpl never.
 
@@ -233,12 +253,26 @@ Section Conf.
            | H : ?x = false |- context [?x] => rewrite H
            end.
 
-  Lemma range_value_00 : range_value_ok (Some [48; 45; 48]%N) = true.
+  Lemma range_value_00 : range_value_ok (Some 0) (Some [48; 45; 48]%N) = true.
   Proof. reflexivity. Qed.
 
+  Lemma dcd_value_desc d a : dcd_value_ok d a (d_digest d) = true.
+  Proof. unfold dcd_value_ok. now rewrite beqb_refl. Qed.
+  Lemma dcd_value_asked d a : dcd_value_ok d (Some a) a = true.
+  Proof. unfold dcd_value_ok. now rewrite beqb_refl, orb_true_r. Qed.
+
+  (* what is known about Options.LocationsForDescriptor: whether it is set, what it answered *)
+  Ltac use_locs :=
+    repeat match goal with
+           | H : o_locs o = _ |- context [o_locs o] => rewrite H; cbn
+           | H : ?t = _ |- context [match ?t with _ => _ end] => rewrite H; cbn
+           end.
+
   Ltac fin_ok :=
-    unfold spec_ok; cbn; use_hyps; rewrite ?parse_dec_dec_Z, ?range_value_00, ?range_value_render; cbn;
-    rewrite ?Z.eqb_refl, ?N.eqb_refl, ?implb'_refl; cbn; use_hyps; try reflexivity.
+    unfold spec_ok, headers_ok, created_ok, chosen_location; use_locs; cbn; use_hyps; use_locs;
+    rewrite ?parse_dec_dec_Z, ?range_value_00, ?range_value_render, ?range_value_render_any; cbn;
+    rewrite ?Z.eqb_refl, ?N.eqb_refl, ?implb'_refl, ?beqb_refl, ?orb_true_r, ?dcd_value_desc, ?dcd_value_asked; cbn; use_hyps;
+    rewrite ?beqb_refl, ?orb_true_r; try reflexivity.
 
   Ltac fin_err Hyp :=
     split_wb Hyp; (split; [first [assumption | reflexivity | rewrite servable_wrap; assumption | idtac]
